@@ -750,7 +750,7 @@ impl Engine for C14 {
         "fault_enumeration"
     }
     fn rule(&self) -> String {
-        "Per seeded scenario (calendar, victim day in early January / December / mid-year so the year file is ~100 B, ~6 KiB or >8 KiB = two write calls, optional earlier complete run leaving an older file, legal short writes, a look-up that makes the process download - Jan 1-7 look-backs write two year files) the real download+cache-write path runs once, fault-free, while SimFs journals every operation. Fault space: every prefix of that journal = a crash after each operation (mkdir, chmod, create, truncate, each write, fsync, rename, close) and inside every write at byte offsets (thorough: all of them; quick: all operation boundaries + ~192 offsets biased to the last three rows and the first row). Power loss adds, after every rename/link and at the end, states in which un-synced data of a file is lost entirely or cut (thorough: every offset; quick: 48 biased offsets). A third of the scenarios start from the debris of an even earlier killed run (e.g. a stale temporary file). For each distinct surviving disk, two fresh simulated processes (same day; a later day) look up every date in the last three and the first surviving rows, the day after, today, the victim's date and two seeded dates. For every n-th distinct state (quick 24th, thorough 6th) the same-day recovery run, which usually downloads again, is itself killed at sampled points of its own journalled write, and the later-day run recovers from that. Oracle: each recovery look-up equals the look-up by the real code with no cache. evaluations = crash states explored; distinct_nontrivial = distinct surviving disks (digest of names + contents).".to_string()
+        "Per seeded scenario (calendar, victim day in early January / December / mid-year so the year file is ~100 B, ~6 KiB or >8 KiB = two write calls, optional earlier complete run leaving an older file, legal short writes, a look-up that makes the process download - Jan 1-7 look-backs write two year files) the real download+cache-write path runs once, fault-free, while SimFs journals every operation. Fault space: every prefix of that journal = a crash after each operation (mkdir, chmod, create, truncate, each write, fsync, rename, close) and inside every write at byte offsets (thorough: all of them; quick: all operation boundaries + ~192 offsets biased to the last three rows and the first row). Power loss adds, after every rename/link and at the end, states in which un-synced data of a file is lost entirely or cut (thorough: every offset; quick: 48 biased offsets). A third of the scenarios start from the debris of an even earlier killed run (e.g. a stale temporary file); in half of those that run's clock was 3-60 days ahead (a clock jump corrected afterwards), so its year content is longer than anything a correct run writes, and it died before its first rename. A third of the victims look further dates up in other years and write up to four year files. For each distinct surviving disk, two fresh simulated processes (same day; a later day) look up every date in the last three and the first surviving rows, the day after, today, the victim's date and two seeded dates. For every n-th distinct state (quick 24th, thorough 6th) the same-day recovery run, which usually downloads again, is itself killed at sampled points of its own journalled write, and the later-day run recovers from that. Oracle: each recovery look-up equals the look-up by the real code with no cache. evaluations = crash states explored; distinct_nontrivial = distinct surviving disks (digest of names + contents).".to_string()
     }
     fn state_measure(&self) -> String {
         "distinct (crash position class: step boundary kind + target, or write target + cut position within the row; older file present) pairs".to_string()
@@ -759,6 +759,7 @@ impl Engine for C14 {
         vec![
             "kill model: the surviving disk is the result of a prefix of the process's file-system operations in program order, the last write possibly cut at any byte (the quantifier of C14)".to_string(),
             "power-loss model ('or the machine loses power'): after a rename/link or at the end of the procedure every name change is durable while, of the data written to a file since its last fsync, only a prefix (possibly nothing) reached the disk; data covered by an fsync is never lost; other reorderings (e.g. a lost rename) only yield states the kill model already contains".to_string(),
+            "clock jump: an earlier killed run may have had its clock set ahead (its server snapshot is the real day's); it is always killed before its first name change, so only a temporary file ever holds what the wrong clock produced; if the write procedure has no name change nothing of that run is kept".to_string(),
             "recovery runs see a healthy server whose snapshot contains every rate published before their today".to_string(),
             "the no-cache reference is the real code itself".to_string(),
         ]
